@@ -50,6 +50,18 @@ def _run_contract(i_prop):
     return verify_contract(REGISTRY[prop][i], tier)
 
 
+def _run_conformance(_arg):
+    """engine self-test (pyvc/conformance.py): the encoding agrees with CPython on the snippet suite"""
+    try:
+        from .conformance import run_all
+
+        st = run_all()
+        st["unsupported"] = len(st["unsupported"])
+        return st
+    except Exception as e:  # noqa: BLE001
+        return {"error": f"{type(e).__name__}: {e}", "mismatches": [], "cases": 0}
+
+
 def _run_structural(args):
     prop, i = args
     name, fn = STRUCTURAL[prop][i]
@@ -187,6 +199,7 @@ def main(argv=None):
     with ctx.Pool(max(1, min(a.jobs, len(jobs) + len(sjobs) or 1))) as pool:
         r1 = pool.map_async(_run_contract, jobs, chunksize=1)
         r2 = pool.map_async(_run_structural, sjobs, chunksize=1)
+        r3 = pool.map_async(_run_conformance, [0] if not os.environ.get("VERIF_NO_CONFORMANCE") else [], chunksize=1)
         # bounded stand-ins run concurrently under the native interpreter
         bres = []
         for script, bargs, label in BOUNDED.get(prop, []):
@@ -203,6 +216,7 @@ def main(argv=None):
             r["wall_s"] = round(time.time() - tb, 2)
             bres.append(r)
         reports = r1.get() + r2.get()
+        conf = (r3.get() or [None])[0]
 
     findings = load_findings()
     # replay files describe THIS run only
@@ -277,6 +291,11 @@ def main(argv=None):
                     known.append((ob["id"], f))
                 else:
                     violations.append((ob["id"], path, failing, witness))
+    if conf is not None:
+        if conf.get("error"):
+            errors.append(("engine-conformance", conf["error"]))
+        for mm in conf.get("mismatches", [])[:5]:
+            errors.append(("engine-conformance", f"the engine disagrees with CPython on {mm['function']}{mm['args']}: engine {mm['engine']!r}, CPython {mm['cpython']!r}"))
     # bounded stand-ins
     bcov = []
     for r in bres:
@@ -348,6 +367,7 @@ def main(argv=None):
         "solver_time_s": round(solver_time, 3),
         "bounded": bcov,
         "cpython_crosscheck": {**xc_tot, "what": "path summaries (path condition -> result term / raised class) of every contract whose call takes scalar inputs and uses no callee summary, evaluated on sampled concrete inputs and compared with the real function under CPython; a mismatch is a checker error"},
+        "engine_conformance": ({k: (len(v) if isinstance(v, list) else v) for k, v in conf.items()} if conf is not None else None),
         "canary": {**canary, "what": "discharged obligations with a feasible path on which the claim is satisfiable (a discharged obligation with none is a checker error: vacuous)"},
         "not_covered": ncov,
         "known_findings": [f["what"] for _i, f in known],
